@@ -19,7 +19,7 @@ MANIFEST_INFO = {
     "design_ref": "DESIGN.md section 5, C18",
     "technique": "explicit-state BFS over add_rule/startTestRun/stopTestRun/status histories on a real StreamResultRouter with recording sinks, routing-precedence reference model per step; exhaustive enumeration of StreamToQueue/consuming-router nestings",
     "level_text": "All histories of <= 6 (quick) / 8 (thorough) operations over 12 rule kinds with a new sink each a refused add_rule (two-segment prefix) and 12 that add a further rule (with or without do_start_stop_run) for the fallback or the most recent sink (<=3 unambiguous rules), run start/stop and 21 status events (7 route codes of 0..4 segments x 3 test ids) are executed on a fresh real router per fallback configuration; after every operation every sink's log is compared with the model (exactly one destination, fields unchanged, exactly one leading segment consumed, start/stop delivered once to registered sinks only). The push/pop inverse is enumerated for every nesting of 1..3 StreamToQueue codes over 4 original route codes.",
-    "level_note": "Events are passed by keyword (as every caller in testtools does); a later rule for the same prefix or id replaces the earlier one (one rule per key).",
+    "level_note": "Events are passed by keyword or positionally; a later rule for the same prefix or id replaces the earlier one (one rule per key).",
 }
 
 T0 = datetime.datetime(2020, 1, 1, tzinfo=datetime.timezone.utc)
@@ -230,7 +230,11 @@ class System:
                     exp = dict(kw)
                     exp["route_code"] = dest[1]
                     expected[dest[0]].append(("status", exp))
-                impl.router.status(**kw)
+                if tid == "b":
+                    # (these events are passed positionally, in the documented order)
+                    impl.router.status(*[kw[f] for f in rec.Stream.FIELDS])
+                else:
+                    impl.router.status(**kw)
             else:
                 raise AssertionError(op)
         except Exception as e:
